@@ -15,7 +15,7 @@ RULE = ('Hypothesis-generated source trees over the whole instruction set (all 9
         'encoding of the lowered tree; unencodable trees must be rejected; Script.from_src must agree. '
         'non-trivial = (>= 3 instructions or >= 1 block) and >= 1 non-canonical spelling choice; '
         'distinct = digest of (tree, spelling vector).'
-        ' Task nesting: all 11 040 two-level nestings of IF / IF_ELSE / TRY / LOOP / DEF x both terminator styles x 5 comment positions x 24 comment bodies; task optimised: every one-byte-operand instruction x 11 decimal values and 300 programs compiled in-process and by a python -O worker (same bytes or both rejected); decimal values on both sides of every byte-length boundary to 17 bytes and around 255 / 256 bytes; the empty string as an s value.')
+        ' Task nesting: all 11 040 two-level nestings of IF / IF_ELSE / TRY / LOOP / DEF x both terminator styles x 5 comment positions x 24 comment bodies; task optimised: every one-byte-operand instruction x 11 decimal values and 300 programs compiled in-process and by a python -O worker (same bytes or both rejected); decimal values on both sides of every byte-length boundary to 17 bytes and around 255 / 256 bytes; the empty string as an s value; task decimals: PUSH / READ_CACHE / READ_CACHE_SIZE / WRITE_CACHE / DIV_INT / MOD_INT / SET_FLAG / UNSET_FLAG x decimal operands on both sides of every length boundary: the operand bytes are the minimal two\'s-complement encoding in every instruction (or the source is rejected).')
 ASSUMPTIONS = ['reference assembler vt/refasm.py + lowering rules vt/render.py written from language_spec.md / docs.md',
                'compiler rejections of encodable programs are not violations (property constrains accepted sources); '
                'they are counted per class and bounded by vacuity guards']
@@ -437,6 +437,39 @@ def task_macros(ctx):
     ctx.exhaustive['macro redefinition orders / comments in macro bodies / instructions without operands in every wrapper'] = n
 
 
+DEC_OPS = ['OP_PUSH', 'OP_READ_CACHE', 'OP_READ_CACHE_SIZE', 'OP_DIV_INT', 'OP_MOD_INT', 'OP_SET_FLAG', 'OP_UNSET_FLAG', 'OP_WRITE_CACHE']
+DEC_VALS = sorted(set([0, 1, -1, 2, 100, 127, 128, 129, 200, 255, 256, 257, 32767, 32768, 65535, 65536, 2 ** 31 - 1, 2 ** 31, 2 ** 32 - 1,
+                       2 ** 32, 2 ** 63 - 1, 2 ** 63, 2 ** 64 - 1, 2 ** 64, -128, -129, -32768, -32769] + [v for v in gen._INT_EDGES if abs(v) < 2 ** 140]))
+
+
+def dec_case(name, n):
+    """A decimal value operand is the VM encoding of the integer (minimal two's complement) wherever a value can be
+    written: the same spelling names the same bytes in PUSH, READ_CACHE, WRITE_CACHE, ..."""
+    enc = R._min_signed(n)
+    if name == 'OP_PUSH':
+        prog = [R.push(enc)]
+    elif name == 'OP_WRITE_CACHE':
+        prog = [['i', C[name], enc, 1]]
+    else:
+        prog = [['i', C[name], enc]]
+    src = '%s d%d%s OP_TRUE' % (name, n, ' d1' if name == 'OP_WRITE_CACHE' else '')
+    return {'check': 'text', 'src': src, 'expected': R.encode(prog + [['i', C['OP_TRUE']]]), 'signature': 'c11/mis-assembled/decimal-value-operand'}
+
+
+def task_decimals(ctx):
+    n = 0
+    for name in DEC_OPS:
+        for v in DEC_VALS:
+            case = dec_case(name, v)
+            k, out = _compile(case['src'])
+            ctx.case(('dec', name, v), abs(v) >= 128)
+            ctx.count('decimal-operand:' + ('accepted' if k == 'ok' else 'rejected'))
+            for sig, det in check_case(case):
+                ctx.fail('text', sig, case, det)
+            n += 1
+    ctx.exhaustive['value-operand instructions x decimal values on both sides of every encoding-length boundary up to 17 bytes'] = n
+
+
 def task_nesting(ctx):
     import itertools
     n = 0
@@ -461,6 +494,7 @@ def task_nesting(ctx):
 
 
 TASKS = {
+    'decimals': (task_decimals, 1, 1),
     'macros': (task_macros, 2, 2),
     'optimised': (task_optimised, 1, 2),
     'nesting': (task_nesting, 2, 4),
